@@ -296,6 +296,75 @@ def check_bits(ctx, cases, stats):
         stats["nontrivial"].add(c.digest(cs))
 
 
+def check_keys(ctx, cases, stats, kf_ids):
+    """Degenerate keys and points: the key-validity hypotheses of the theorems must be enforced by the
+    deserializers (or verification must fail)."""
+    for cs in cases:
+        stats["decisions"] += 1
+        k = cs["k"]
+        if k == "vrfkey":
+            stats["degenerate"]["vrf_small_order_key_encodings"] += 1
+            if cs["parsed"]:
+                acc = [f for f in cs.get("forgery", []) if f.get("accepted") is True]
+                betas = sorted({f.get("beta") for f in acc})
+                report(ctx, {"mode": "keys", "seed": ctx.seed, "public_key_bytes": cs["bytes"], "label": cs["label"],
+                             "small_order": cs["small_order"], "verify_key": cs.get("verify_key"), "forged_proofs": cs.get("forgery"),
+                             "theorem": "vrf_small_order_key_forgeable (the key-validity precondition of the VRF theorems is not enforced by Deserial for PublicKey)"},
+                       "ECVRF: the small-order point %s (%s) deserializes as a public key; forged proofs (no secret key) accepted for %d/%d messages, %d distinct output(s)"
+                       % (cs["bytes"], cs["label"], len(acc), len(cs.get("forgery", [])), len(betas)))
+            else:
+                stats["degenerate"]["rejected"] += 1
+        elif k == "vrfdefault":
+            # model = code on the identity key (theorem vrf_identity_key_forgeable); the key is not deserializable
+            f = cs["forgery"]
+            ctx.notes["vrf_identity_key (PublicKey::default())"] = {"verify_key": cs["verify_key"], "deserializable": cs["reparses"],
+                                                                   "forged_proofs_accepted": [x.get("accepted") for x in f],
+                                                                   "distinct_outputs": len({x.get("beta") for x in f})}
+            if cs["reparses"] or cs["verify_key"]:
+                report(ctx, {"mode": "keys", "seed": ctx.seed, "case": cs}, "ECVRF: the identity public key is reported valid (verify_key / deserialization)")
+            if any(x.get("accepted") is not True for x in f) or len({x.get("beta") for x in f}) != 1:
+                report(ctx, {"mode": "keys", "seed": ctx.seed, "case": cs, "layer": "Vrf.vrf_verify vs PublicKey::verify on the identity key (vrf_identity_key_forgeable)"},
+                       "ECVRF: model predicts that the forged proof for the identity key is accepted with a constant output; the implementation disagrees")
+        elif k == "vrfgamma":
+            for t in cs["tries"]:
+                stats["degenerate"]["small_order_gamma_proofs"] += 1
+                if t.get("parsed") and t.get("accepted") != t["model"]:
+                    report(ctx, {"mode": "keys", "seed": ctx.seed, "case": cs, "try": t, "theorem": "vrf_verify_iff"},
+                           "ECVRF: proof with small-order Gamma: implementation %s, model equation %s" % (t.get("accepted"), t["model"]))
+                elif t.get("parsed") and t.get("accepted") is not False:
+                    report(ctx, {"mode": "keys", "seed": ctx.seed, "case": cs, "try": t},
+                           "ECVRF: a proof with small-order Gamma (%s) verifies under an honest key" % cs["gamma"])
+        elif k == "blsid":
+            if cs.get("identity_sig_honest_key") is not False or cs.get("identity_key_honest_sig") not in (False, None):
+                report(ctx, {"mode": "keys", "seed": ctx.seed, "case": cs}, "BLS: identity signature/key accepted against an honest key/signature")
+            degenerate = cs["pk_identity_parsed"] and (True in (cs.get("identity_sig_identity_key") or []) or cs.get("aggregate_with_identity_pair") is True
+                                                       or cs.get("trusted_keys_with_identity_key") is True)
+            ctx.notes["bls_identity_key"] = {x: cs.get(x) for x in ("pk_identity_parsed", "sig_identity_parsed", "sk_zero_parsed", "identity_sig_identity_key",
+                                                                     "aggregate_with_identity_pair", "trusted_keys_with_identity_key", "pop_for_identity_key")}
+            if degenerate:
+                what = ("the G2 identity deserializes as a BLS public key (sk = 0): identity signature verifies for every message %s, "
+                        "(message, identity key) pair appended to a valid aggregate accepted=%s, trusted-keys with an extra identity key accepted=%s, PoP for sk=0 verifies=%s"
+                        % (cs.get("identity_sig_identity_key"), cs.get("aggregate_with_identity_pair"), cs.get("trusted_keys_with_identity_key"), cs.get("pop_for_identity_key")))
+                if "KF-C19-1" in kf_ids:
+                    ctx.known_finding("KF-C19-1", what)
+                else:
+                    report(ctx, {"mode": "keys", "seed": ctx.seed, "case": cs}, "BLS: " + what)
+        elif k == "subgroup":
+            for grp, key in (("g1", "bls_sig_parsed"), ("g2", "bls_key_parsed")):
+                for e in cs[grp]:
+                    stats["degenerate"]["non_subgroup_points"] += 1
+                    if e.get(key) or e.get("ps_sig_parsed"):
+                        if e.get("bls_verify") is not False:
+                            report(ctx, {"mode": "keys", "seed": ctx.seed, "point": e}, "BLS: a point outside the prime-order subgroup deserializes and verification does not fail")
+                        else:
+                            ctx.notes.setdefault("non_subgroup_points_parsed", []).append(e["bytes"])
+                    else:
+                        stats["degenerate"]["rejected"] += 1
+        elif k == "psid":
+            if cs["good"] is not True or any(v["accepted"] is not False for v in cs["variants"]):
+                report(ctx, {"mode": "keys", "seed": ctx.seed, "case": cs}, "PS: a signature with an identity component is accepted (or the honest one rejected)")
+
+
 def run_mode(ctx, binp, args, timeout=1500):
     rc, out = c.run_bin(binp, args, timeout=timeout)
     if rc != 0:
@@ -343,7 +412,8 @@ def run(ctx):
         return
     q = ctx.quick
     stats = {"decisions": 0, "accepts": 0, "rejects": 0, "nontrivial": set(), "bls_sizes": {}, "ps_shapes": {}, "vrf_alpha": {},
-             "flip_parsed": 0, "flip_noparse": 0}
+             "flip_parsed": 0, "flip_noparse": 0,
+             "degenerate": {"vrf_small_order_key_encodings": 0, "small_order_gamma_proofs": 0, "non_subgroup_points": 0, "rejected": 0}}
     n_eval = 0
 
     # --- BLS (small and large signer sets) and PS: harness runs, then ONE sharded model evaluation
@@ -390,6 +460,12 @@ def run(ctx):
         check_bits(ctx, cases, stats)
         n_eval += len(cases)
 
+    cases = run_mode(ctx, binp, ["keys", ctx.seed])
+    if cases is not None:
+        kf_ids = {f["id"] for f in c.load_known_findings()["findings"] if f["property"] == "C19"}
+        check_keys(ctx, cases, stats, kf_ids)
+        n_eval += len(cases)
+    ctx.notes["degenerate_keys_and_points"] = stats["degenerate"]
     if _suppressed[0]:
         ctx.notes["further_failing_inputs_not_written_out"] = _suppressed[0]
         ctx.log("%d further failing inputs not written out" % _suppressed[0])
